@@ -128,12 +128,20 @@ func newScriptNumber(v int, desc string) (*scriptEnv, string) {
 		n = newRoot(v, 3, "bigrat", bigOf(parts[1]), bigOf(parts[2]))
 	case "R":
 		n = newRat(v, bigOf(parts[1]), bigOf(parts[2]))
-	case "T", "TM", "TS":
+	case "T", "TM", "TS", "TE":
 		if v != 3 {
 			return nil, "na"
 		}
 		exp, _ := strconv.Atoi(parts[3])
 		f, rp := digitsOf(parts[1]), digitsOf(parts[2])
+		if parts[0] == "TE" { // empty lists are passed as empty NON-NIL slices
+			if f == nil {
+				f = []int{}
+			}
+			if rp == nil {
+				rp = []int{}
+			}
+		}
 		if parts[0] == "TS" {
 			// one backing array: [fixed | 2 spare cells | repeating]; fixed's capacity reaches over repeating
 			buf := make([]int, 0, len(f)+2+len(rp))
